@@ -239,6 +239,7 @@ func parseCrashSite(r interface{}, stack string) string {
 
 // SafeParse calls client.ParseLine and turns a panic into a value.
 func SafeParse(s string) (l *client.Line, crash string) {
+	BeatParse(&s)
 	defer func() {
 		if r := recover(); r != nil {
 			l = nil
@@ -793,6 +794,14 @@ func c01TargetsJob() Job {
 }
 
 func c01Jobs(tier string) []Job {
+	jobs := c01JobsUnguarded(tier)
+	for i := range jobs {
+		jobs[i] = GuardJob(jobs[i])
+	}
+	return jobs
+}
+
+func c01JobsUnguarded(tier string) []Job {
 	var jobs []Job
 	jobs = append(jobs, c01LongJob(), c01TargetsJob())
 	add := func(sp *c01Space) {
